@@ -76,6 +76,19 @@ class Engine:
             nm = f"{nm}#{n}"
         self.obls.append(Obligation(nm, "cover", st.pc, TRUE, lineno, "", cover=True))
 
+    def mkset(self, st, consts, body):
+        """The set {consts | body} as an array term. Outside binders it is a fresh constant with a defining
+        axiom (plain SMT-LIB, so every back end can read it); under a binder it must stay a lambda."""
+        if getattr(self, "qdepth", 0) > 0 or st is None:
+            return z3.Lambda(consts, body)
+        if len(consts) == 1:
+            dom = consts[0].sort()
+        else:
+            raise OutOfSubset("multi-binder set")
+        arr = z3.Const(fresh_name("S"), z3.ArraySort(dom, z3.BoolSort()))
+        st.assume(z3.ForAll(consts, z3.Select(arr, consts[0]) == body))
+        return arr
+
     # ------------------------------------------------------------------ truthiness / equality
     def truth(self, v: V):
         k = v.t[0]
@@ -417,11 +430,11 @@ class Engine:
             b = coerce(b, a.t)
             x = z3.Const(fresh_name("e"), sort_of(a.t[1]))
             if isinstance(op, ast.Sub):
-                return V(a.t, z3.Lambda([x], z3.And(z3.Select(a.x, x), z3.Not(z3.Select(b.x, x)))))
+                return V(a.t, self.mkset(st, [x], z3.And(z3.Select(a.x, x), z3.Not(z3.Select(b.x, x)))))
             if isinstance(op, (ast.BitOr, ast.Add)):
-                return V(a.t, z3.Lambda([x], z3.Or(z3.Select(a.x, x), z3.Select(b.x, x))))
+                return V(a.t, self.mkset(st, [x], z3.Or(z3.Select(a.x, x), z3.Select(b.x, x))))
             if isinstance(op, ast.BitAnd):
-                return V(a.t, z3.Lambda([x], z3.And(z3.Select(a.x, x), z3.Select(b.x, x))))
+                return V(a.t, self.mkset(st, [x], z3.And(z3.Select(a.x, x), z3.Select(b.x, x))))
         if ka == "list" and kb == "list" and isinstance(op, ast.Add):
             return V(("list",), list(a.x) + list(b.x))
         if ka == "list" and kb in ("bag", "seq") and isinstance(op, ast.Add):
@@ -468,6 +481,8 @@ class Engine:
         if k == "obj":
             if attr in recv.x:
                 return [(st, recv.x[attr])]
+            if attr == "__dict__":
+                return [(st, V(("objdict",), recv.x))]
             return self.reg.call_method(self, st, recv, attr, [], {}, node, is_property=True)
         if k == "opt":
             # attribute on Optional: AttributeError when None
@@ -540,6 +555,13 @@ class Engine:
                 self.do_raise(st, "IndexError", ln)
                 return []
             return [(st, recv.x[i])]
+        if k == "objdict":
+            sv = z3.simplify(idx.x) if idx.t[0] == "str" else None
+            if sv is None or not z3.is_string_value(sv):
+                raise OutOfSubset("symbolic key into __dict__")
+            return [(st, recv.x[sv.as_string()])]
+        if k == "opt" and self.spec:
+            return self.index(recv.x[1], idx, st, node)
         if k == "dict":
             key = to_term(coerce(idx, recv.t[1]))
             present = z3.Select(recv.x[0], key)
